@@ -2009,6 +2009,7 @@ sqascii_FetchSubseq(ESL_SQFILE *sqfp, const char *source, int64_t start, int64_t
 
   if ((status = esl_sq_GrowTo(sq, nres)) != eslOK) return status;
   status = read_nres(sqfp, sq, nskip, nres, &n);
+  if (status == eslEFORMAT) return status;   /* illegal character in the sequence data; seebuf() has set errbuf */
   if (status != eslOK || n < nres) ESL_EXCEPTION(eslEINCONCEIVABLE, "Failed to fetch subsequence residues -- corrupt coords?");
 
   /* Set the coords */
